@@ -203,6 +203,35 @@ fn check_tape(tape: &[u8], gates: &Gates, stats: &mut Stats, counting: bool) -> 
             reference = Some((which, o));
         }
     }
+    // the file reached through a directory argument: same observations as the file named directly
+    if let Some((_, r)) = &reference {
+        if choice.ratio(1, 3) {
+            let which = choice.below(5);
+            if let Some(b) = encode(&text, which) {
+                let dir = Scratch::new("c14dir");
+                let sub = dir.path.join("only");
+                std::fs::create_dir_all(&sub).unwrap();
+                std::fs::write(sub.join(*choice.pick(&["in.st", "IN.ST", "source", "in.txt"])), &b).unwrap();
+                let c = run_cli(&["check".to_string(), sub.to_string_lossy().to_string()], None);
+                if !c.timed_out {
+                    if counting {
+                        stats.class(&format!("directory.{}", ENC_NAMES[which]));
+                    }
+                    let mut diags: Vec<(String, usize, usize)> = parse_cli_diags(&c.stderr).into_iter().map(|d| (d.code, d.line, d.col)).collect();
+                    diags.sort();
+                    let inputs = json!({"text": text, "encoding": ENC_NAMES[which], "given_as": "directory"});
+                    if (c.status == Some(0)) != (r.status == Some(0)) || diags != r.diags {
+                        return Err(Failure::new(
+                            "encodings-directory",
+                            "verdict-differs",
+                            format!("the file named directly: exit {:?} {:?}; the directory that holds only this file (stored as {}): exit {:?} {:?}", r.status, r.diags, ENC_NAMES[which], c.status, diags),
+                            inputs,
+                        ));
+                    }
+                }
+            }
+        }
+    }
     // the same file inside a set: a valid companion in ANOTHER encoding is read by the same process
     // (before or after it); the observations for the file must not change
     if let Some((_, r)) = &reference {
